@@ -237,6 +237,15 @@ def run(prop, spec, tier, seed, t0):
         # sample of the deep stream
         gen_tier = "quick+deep-sample"
         ops = ops + bounded(gens.generate(prop, "thorough", seed + 7, budget=400000), 500000, 4000000, _random.Random(seed))
+    # the corpus of inputs that once exposed a seeded defect runs first, whatever the seed
+    cpath = os.path.join(vlib.ROOT, "corpus", prop + ".jsonl")
+    if os.path.exists(cpath):
+        corpus = []
+        with open(cpath) as f:
+            for l in f:
+                d = json.loads(l)
+                corpus.append((d["op"], d["meta"]))
+        ops = corpus + ops
     only = os.environ.get("MEMCHR_VERIF_ONLY_CFGS")
     if only:
         # development aid (tools/mechmut.py): restrict the run to some executor variants
